@@ -7,12 +7,14 @@
    sizes (their model has no access to them: they only see n_in/n_out/n_layer/n_pos), and for phase 4 with VAlign,
    PackRight, SinkColoring and phase 5 with Straight, Polyline, Orthogonal routing, running on the scaled input
    gives the scaled output.
-   C17_partial: Brandes-Koepf is not modelled; for it the model treats x as an oracle (phase4 OtherPositioner)
-   and the claim is only searched by the direct oracle (Layout(c*sizes) against c*Layout(sizes)). Polyline and
+   Brandes-Koepf (Model/BK.v, the functional model of execBrandesKoepf validated by the step correspondence):
+   the discrete steps (markConflicts, verticalAlign) read no rational and are equal on both inputs; every
+   rational step computes related values and every comparison has the same outcome because both sides scale by
+   c > 0 (Proofs/BKProofs.v, C17_brandes_koepf). Polyline and
    Orthogonal routes of FLAT edges use absolute constants (20, 10, 5) and are excluded by hypothesis
    [routes_not_flat]; flat edges do not occur in a proper layering. *)
 From Coq Require Import List QArith.
-From Autog Require Import Graph Phase4 Phase5 Scale.
+From Autog Require Import Graph Phase4 Phase5 BK Scale BKProofs.
 Import ListNotations.
 Local Open Scope Q_scope.
 
@@ -46,3 +48,24 @@ Theorem C17_ns_positioner_refuted :
               (map_res (scale_graph (1#4)) (phase4 NsPositioner pN gN)).
 Proof. exact ns_positioner_not_equivariant. Qed.
 Print Assumptions C17_ns_positioner_refuted.
+
+(* Brandes-Koepf, all four forced layouts and the balanced one *)
+Theorem C17_brandes_koepf : forall c variant p g, 0 < c ->
+  res_equiv (phase4_bk variant (scale_p4 c p) (scale_graph c g)) (map_res (scale_graph c) (phase4_bk variant p g)).
+Proof. exact phase4_bk_scale. Qed.
+Print Assumptions C17_brandes_koepf.
+
+(* Brandes-Koepf followed by routing *)
+Theorem C17_brandes_koepf_then_routing : forall c variant a5 p g, 0 < c ->
+  (forall g1, phase4_bk variant p g = Ok g1 -> needs_no_flat a5 = true -> routes_not_flat g1) ->
+  res_equiv (do g1 <- phase4_bk variant (scale_p4 c p) (scale_graph c g); phase5 a5 (layer_spacing (scale_p4 c p)) g1)
+            (map_res (scale_graph c) (do g1 <- phase4_bk variant p g; phase5 a5 (layer_spacing p) g1)).
+Proof.
+  intros c variant a5 p g Hc NF. apply res_rel_iff.
+  pose proof (@phase4_bk_rel c variant p (scale_p4 c p) g (scale_graph c g) Hc (graph_rel_scale c g)) as H4.
+  cbn [scale_p4 node_spacing layer_spacing] in H4. specialize (H4 (Qeq_refl _) (Qeq_refl _)).
+  destruct (phase4_bk variant p g) as [g1|er], (phase4_bk variant (scale_p4 c p) (scale_graph c g)) as [g1'|er'];
+    cbn in H4; try contradiction; cbn [bind]; auto.
+  apply phase5_rel; auto. cbn. reflexivity.
+Qed.
+Print Assumptions C17_brandes_koepf_then_routing.
